@@ -29,6 +29,45 @@ let list_brackets s =
   if n < 2 then [] else List.filter (fun w -> w <> "") (split_on ',' (String.sub s 1 (n - 2)))
 let socks_of_list s = List.filter_map sock_of (list_brackets s)
 
+let hexv c = match c with '0'..'9' -> Char.code c - 48 | 'a'..'f' -> Char.code c - 87 | 'A'..'F' -> Char.code c - 55 | _ -> 0
+let ints_of_hex h = List.init (String.length h / 2) (fun i -> hexv h.[2 * i] * 16 + hexv h.[2 * i + 1])
+
+(* Is this buffer exactly ONE DNS message?  Header, qdcount questions, an+ns+ar resource records
+   walked by their own lengths; the walk must end exactly at the end of the buffer (no trailing
+   octets, nothing cut off). *)
+let dns_exact (m : int array) : (unit, string) result =
+  let n = Array.length m in
+  if n < 12 then Error (Printf.sprintf "%d octets, shorter than a header" n)
+  else begin
+    let u16 o = m.(o) * 256 + m.(o + 1) in
+    let rec skip_name off hops =
+      if off >= n || hops > 130 then None
+      else let l = m.(off) in
+        if l = 0 then Some (off + 1)
+        else if l land 0xC0 = 0xC0 then (if off + 2 <= n then Some (off + 2) else None)
+        else if l < 64 then skip_name (off + 1 + l) (hops + 1)
+        else None in
+    let qd = u16 4 and rrs = u16 6 + u16 8 + u16 10 in
+    let rec questions off k =
+      if k = 0 then Some off
+      else match skip_name off 0 with
+        | Some o when o + 4 <= n -> questions (o + 4) (k - 1)
+        | _ -> None in
+    let rec records off k =
+      if k = 0 then Some off
+      else match skip_name off 0 with
+        | Some o when o + 10 <= n ->
+          let rdl = u16 (o + 8) in
+          if o + 10 + rdl <= n then records (o + 10 + rdl) (k - 1) else None
+        | _ -> None in
+    match questions 12 qd with
+    | None -> Error "question section runs past the end"
+    | Some o ->
+      (match records o rrs with
+       | None -> Error "record sections run past the end"
+       | Some e -> if e = n then Ok () else Error (Printf.sprintf "%d trailing octets after the message (%d of %d)" (n - e) e n))
+  end
+
 let reject_name = function
   | RjAfterDestroy -> "after-destroy" | RjBadDescriptor -> "bad-descriptor" | RjUseAfterClose -> "use-after-close"
   | RjDoubleClose -> "double-close" | RjBadOrder -> "bad-order" | RjUdpLimit -> "udp-limit"
@@ -183,6 +222,15 @@ let () =
            end
          | _ -> ());
         (* ---- FAIL: the monitor ---- *)
+        (match w with
+         | "TX" :: _ :: s :: rest when kv "proto" rest = Some "udp" ->
+           (* what the library hands to asendto on a UDP socket is exactly one DNS message *)
+           (match kv "hex" rest with
+            | Some h -> (match dns_exact (Array.of_list (ints_of_hex h)) with
+                | Ok () -> ()
+                | Error why -> fail "udp-datagram-not-one-message" (Printf.sprintf "line %d: %s: datagram of %d octets: %s" !i s (String.length h / 2) why))
+            | None -> ())
+         | _ -> ());
         (match w with
          | "BADFD" :: _ -> fail "bad-descriptor" l
          | "CBOP" :: _ -> feat "cbop"
